@@ -3,13 +3,18 @@
 into DESIGN.md between <!-- opsweep:begin --> and <!-- opsweep:end -->."""
 import json, os, collections
 V = os.path.dirname(os.path.dirname(os.path.abspath(__file__)))
-res = json.load(open(os.path.join(V, "selftest", "opsweep.json")))
-dp = os.path.join(V, "selftest", "opsweep_dispositions.json")
+import sys
+NAME = sys.argv[1] if len(sys.argv) > 1 else "opsweep"
+res = json.load(open(os.path.join(V, "selftest", NAME + ".json")))
+dp = os.path.join(V, "selftest", NAME + "_dispositions.json")
 disp = json.load(open(dp)) if os.path.exists(dp) else {}
 by = collections.defaultdict(lambda: collections.Counter())
 for r in res:
     by[r["file"]][r["verdict"]] += 1
 cols = ["caught", "survived", "inconclusive", "unreached", "invalid", "error"]
+byc = collections.defaultdict(lambda: collections.Counter())
+for r in res:
+    byc[r["class"]][r["verdict"]] += 1
 out = ["| file | sites | " + " | ".join(cols) + " |", "|---|---|" + "---|" * len(cols)]
 tot = collections.Counter()
 for f in sorted(by):
@@ -17,6 +22,11 @@ for f in sorted(by):
     tot.update(c)
     out.append("| %s | %d | %s |" % (f, sum(c.values()), " | ".join(str(c.get(k, 0)) for k in cols)))
 out.append("| **all** | %d | %s |" % (sum(tot.values()), " | ".join(str(tot.get(k, 0)) for k in cols)))
+out.append("")
+out.append("| class | sites | " + " | ".join(cols) + " |")
+out.append("|---|---|" + "---|" * len(cols))
+for c_ in sorted(byc):
+    out.append("| %s | %d | %s |" % (c_, sum(byc[c_].values()), " | ".join(str(byc[c_].get(k, 0)) for k in cols)))
 out.append("")
 surv = [r for r in res if r["verdict"] in ("survived", "inconclusive")]
 out.append("Survivors and inconclusive sites (%d) with their disposition:" % len(surv))
@@ -33,8 +43,8 @@ for r in surv:
                                                     {True: "passes", False: "fails", None: "-"}[r.get("suite_passes")], d))
 p = os.path.join(V, "DESIGN.md")
 s = open(p).read()
-b, e = "<!-- opsweep:begin -->", "<!-- opsweep:end -->"
+b, e = "<!-- %s:begin -->" % NAME, "<!-- %s:end -->" % NAME
 if b in s:
     s = s[:s.index(b) + len(b)] + "\n" + "\n".join(out) + "\n" + s[s.index(e):]
     open(p, "w").write(s)
-print("opsweep table: %d sites, %d survivors, %d without a disposition" % (len(res), len(surv), missing))
+print(NAME + " table: %d sites, %d survivors, %d without a disposition" % (len(res), len(surv), missing))
